@@ -37,7 +37,7 @@ def setCp (cps : List (Int × CpRec)) (db : Int) (r : CpRec) : List (Int × CpRe
 
 /-- execute one request outside MULTI (or from the queue at EXEC) -/
 def execReq (t : TState) : Req → TState
-  | .cmd name args =>
+  | .cmd name args _ =>
     if name = bSelect then
       match args with
       | [a] => match atoi? a with
